@@ -32,6 +32,13 @@
 (* are the negative controls of this model; old3 needs N = 4: facts that flip  *)
 (* between two states for ever - found by this model, then reproduced on the   *)
 (* real pass with an unreachable region of five statements).                   *)
+(* The same skeleton without the wait rule (WaitForVisited = FALSE,            *)
+(* FirstVisitCounts = FALSE) is the loop in which LivenessPass::run computes   *)
+(* its u_def sets; UnvisitedIsTop is its repair 7f73c33 (PassLoop_Udef*.cfg;   *)
+(* the order of the sweep does not matter to a model that enumerates all       *)
+(* graphs).  Without it TLC finds the same kind of lasso at N = 4              *)
+(* (PassLoop_Udef_old.cfg) - a prediction that brute force over unreachable    *)
+(* regions with link jumps then confirmed on the real pass.                    *)
 EXTENDS Integers, Sequences, FiniteSets, TLC, PassOps
 
 CONSTANTS N,                  \* number of nodes; cfg.iter() visits 1, 2, .., N
